@@ -177,7 +177,7 @@ func (p stProp) Gen(r *Rand, idx int, tier string) Sx {
 		// unrelated names, aged by a rotation burst, refreshed through one name, then an
 		// existence check through (a descendant of) the other name, then reads under
 		// every name: only descendants of the two uploaders may see it
-		if p.flavor == "c10" && hier && len(threads) == 0 && r.Chance(10) && len(anc) >= 3 {
+		if (p.flavor == "c10" || p.flavor == "c04") && hier && len(threads) == 0 && r.Chance(10) && len(anc) >= 3 {
 			unrelated := [][2]int{}
 			for a := 1; a < len(anc); a++ {
 				for b := 1; b < len(anc); b++ {
@@ -236,7 +236,13 @@ func (p stProp) Gen(r *Rand, idx int, tier string) Sx {
 						}
 					}
 				}
-				ops = append(ops, L(A(6), L(L(AI(x), AI(desc)))))
+				if r.Chance(50) {
+					ops = append(ops, L(A(6), L(L(AI(x), AI(desc)))))
+				} else {
+					// read through the name whose lookup entry is stale while the canonical
+					// entry has been refreshed through the other name
+					get(x, desc)
+				}
 				for j := range anc {
 					get(x, j)
 				}
@@ -313,6 +319,54 @@ func (p stProp) Gen(r *Rand, idx int, tier string) Sx {
 				ops = append(ops, L(A(4), AI(tg), AI(a), AI(ia)), L(A(5), AI(tg)))
 				ops = append(ops, L(A(2), AI(tb), LBytes(objs[b][cut:])), L(A(3), AI(tb), A(0)))
 				ops = append(ops, L(A(4), AI(tg2), AI(b), AI(ib)), L(A(5), AI(tg2)))
+				continue
+			}
+		}
+		// directed "two detections, newer first" scenario: two objects in different blocks,
+		// both blocks corrupted (no reader open yet), a healthy object uploaded afterwards;
+		// readers on both objects are obtained BEFORE anything is detected; the newer
+		// object's reader is consumed first (detection: quarantine up to its block), then
+		// the older one's (a second detection with a lower boundary): the quarantine must
+		// not move backwards - the newer object stays unreadable, the healthy one readable.
+		if corrupt && nblocks > 0 && len(threads) == 0 && len(ops)+16 < nops && r.Chance(10) {
+			big := []int{}
+			for o := 0; o < nobj; o++ {
+				if len(objs[o])*2 > bs && len(objs[o]) <= bs {
+					big = append(big, o)
+				}
+			}
+			if len(big) >= 2 {
+				ai := r.Intn(len(big))
+				a := big[ai]
+				b := big[(ai+1+r.Intn(len(big)-1))%len(big)]
+				w := r.Intn(nobj)
+				ia, ib := inst(), inst()
+				up := func(o, i int) {
+					tid := nextTid
+					nextTid++
+					ops = append(ops, L(A(1), AI(tid), AI(o), AI(i)))
+					for _, c := range stSplit(r, objs[o]) {
+						ops = append(ops, L(A(2), AI(tid), LBytes(c)))
+					}
+					ops = append(ops, L(A(3), AI(tid), A(0)))
+				}
+				up(a, ia)
+				up(b, ib)
+				for reg := 0; reg < nblocks; reg++ {
+					ops = append(ops, L(A(9), AI(reg), A(0), AI(bs)))
+				}
+				if w != a && w != b {
+					up(w, inst())
+				}
+				ta, tb := nextTid, nextTid+1
+				nextTid += 2
+				ops = append(ops, L(A(4), AI(ta), AI(a), AI(ia)), L(A(4), AI(tb), AI(b), AI(ib)))
+				ops = append(ops, L(A(5), AI(tb)), L(A(5), AI(ta)))
+				for _, x := range [][2]int{{b, ib}, {a, ia}} {
+					tid := nextTid
+					nextTid++
+					ops = append(ops, L(A(4), AI(tid), AI(x[0]), AI(x[1])), L(A(5), AI(tid)))
+				}
 				continue
 			}
 		}
